@@ -46,7 +46,35 @@ TYPES = {
 }
 
 
+def crosscheck(cases):
+    """native side of the engine cross-check: the real setters on concrete instances (numba JIT disabled by the caller)"""
+    from pde.grids.boundaries import local as L
+
+    out = []
+    for c in cases:
+        try:
+            grid = CartesianGrid([(0.0, n * h) for n, h in zip(c["shape"], c["h"])], c["shape"], periodic=[c["cls"] == "_PeriodicBC" and a == c["axis"] for a in range(c["num_axes"])])
+            cls = getattr(L, c["cls"])
+            if c["cls"] == "_PeriodicBC":
+                bc = cls(grid, c["axis"], c["upper"], flip_sign=c["flip"])
+            elif c["cls"] == "MixedBC":
+                bc = cls(grid, c["axis"], c["upper"], value=c["value"], const=c["const"])
+            else:
+                bc = cls(grid, c["axis"], c["upper"], value=c["value"])
+            data = np.array(c["data"], dtype=float)
+            if c["route"] == "interpreted":
+                bc.set_ghost_cells(data)
+            else:
+                get_backend("numba")._make_local_ghost_cell_setter(bc)(data)
+            out.append({"id": c["id"], "out": data.tolist()})
+        except Exception as e:
+            out.append({"id": c["id"], "error": f"{type(e).__name__}: {e}"})
+    return {"ok": True, "results": out}
+
+
 def run(payload):
+    if "crosscheck" in payload:
+        return crosscheck(payload["crosscheck"])
     rng = np.random.default_rng(payload.get("seed", 0))
     fails, cases = [], 0
 
